@@ -6,10 +6,12 @@
    muduo/net/TimerQueue.cc by the correspondence check (bin/check C06) and by the regenerated
    facts (Gen_C06: the two literals of the 100 us floor, the getExpired sentinel; Gen_Consts:
    kMicroSecondsPerSecond).
-   NOT proved here (tied by the oracle of the correspondence check only, see docs/C06.md):
-   C06_oneshot_exactly_once, C06_repeat_spacing, C06_deadline_order, C06_progress. *)
-From Coq Require Import List ZArith Lia Bool.
-From Muduo Require Import Gen_Consts Gen_C06 C06_Model C06_Proofs.
+   Since 2026-10-01 also proved for ALL op lists, over the monotone history (the event log):
+   exactly-once of one-shots, repeater spacing, none lost / exact re-arm / progress, deadline order
+   (C06_Hist.v, C06_Order.v), and the guards of insert / reset / the valid() gate are regenerated
+   from the sources and linked to the model (C06_GenTie.v). *)
+From Coq Require Import List ZArith Lia Bool Sorted.
+From Muduo Require Import Gen_Consts Gen_C06 C06_Model C06_Proofs C06_Hist C06_Order C06_GenTie.
 Import ListNotations.
 Local Open Scope Z_scope.
 
@@ -52,6 +54,117 @@ Theorem C06_generated_floor : 0 < TimerQueue_floor_val /\ 0 < TimerQueue_floor_c
 Proof. exact (conj gen_floor_val_pos (conj gen_floor_cmp_pos (conj gen_floor_is_lt (conj gen_sentry_is_now gen_K_pos)))). Qed.
 Print Assumptions C06_generated_floor.
 
+(* ------------------------------------------------------------------ the history theorems *)
+(* Every callback run belongs to a timer whose id was returned by an add, and an id is returned once. *)
+Theorem C06_run_of_added : forall c ops st evs, run (init c) ops = Ok (st, evs) ->
+  forall s dl now t, In (ERun s dl now t) evs -> exists a w iv, In (EAdd s a w iv) evs.
+Proof. exact run_of_added. Qed.
+Print Assumptions C06_run_of_added.
+Theorem C06_add_unique : forall c ops st evs, run (init c) ops = Ok (st, evs) ->
+  forall s a w iv a' w' iv', In (EAdd s a w iv) evs -> In (EAdd s a' w' iv') evs -> a = a' /\ w = w' /\ iv = iv'.
+Proof. exact add_unique. Qed.
+Print Assumptions C06_add_unique.
+
+(* A one-shot (runAt / runAfter; interval <= 0) runs AT MOST ONCE in any trace: for every occurrence
+   of a run of its sequence number there is no other before or after it; it is filed under the
+   timer's own deadline w and happens at or after w (w <= batch instant <= clock at the callback). *)
+Theorem C06_oneshot_at_most_once : forall c ops st evs, run (init c) ops = Ok (st, evs) ->
+  forall s a w iv, In (EAdd s a w iv) evs -> iv <= 0 ->
+  forall l1 dl now t l2, evs = l1 ++ ERun s dl now t :: l2 ->
+  dl = w /\ w <= now <= t /\
+  (forall dl' now' t', ~ In (ERun s dl' now' t') l1) /\ (forall dl' now' t', ~ In (ERun s dl' now' t') l2).
+Proof. exact oneshot_at_most_once. Qed.
+Print Assumptions C06_oneshot_at_most_once.
+
+(* ... and EXACTLY ONCE as soon as an expiry is processed at or after its deadline while it is
+   registered: it runs in that expiry, and that is its only run in the whole trace, whatever ops
+   came before and whatever ops follow. *)
+Theorem C06_oneshot_exactly_once : forall c ops st evs a o script st' ev ops2 st2 evs2,
+  run (init c) ops = Ok (st, evs) -> hget a (heap st) = Some o -> o_iv o <= 0 ->
+  In (o_exp o, a) (timers st) -> o_exp o <= clk st -> fire st script = Ok (st', ev) ->
+  run st' ops2 = Ok (st2, evs2) ->
+  (exists t, In (ERun (o_seq o) (o_exp o) (clk st) t) ev) /\
+  length (runs_of (o_seq o) (evs ++ ev ++ evs2)) = 1%nat.
+Proof. exact oneshot_exactly_once. Qed.
+Print Assumptions C06_oneshot_exactly_once.
+
+(* A repeater (runEvery; interval iv > 0, first deadline w): the run that has k predecessors in the
+   trace -- its (k+1)-th run -- is filed under a deadline >= w + k*iv and happens at or after it. *)
+Theorem C06_repeat_spacing : forall c ops st evs, run (init c) ops = Ok (st, evs) ->
+  forall s a w iv, In (EAdd s a w iv) evs -> 0 < iv ->
+  forall l1 dl now t l2, evs = l1 ++ ERun s dl now t :: l2 ->
+  w + Z.of_nat (length (runs_of s l1)) * iv <= dl /\ dl <= now <= t.
+Proof. exact repeat_spacing. Qed.
+Print Assumptions C06_repeat_spacing.
+
+(* One expiry (handleRead at clock now): the callbacks it runs are EXACTLY the registered timers
+   whose deadline is <= now (due), each once, in (deadline, address) order, each filed under its
+   deadline; afterwards the timerfd is armed for exactly max(earliest remaining deadline, now' + floor). *)
+Theorem C06_expiry_runs_exactly_due : forall c ops st evs script st' ev, run (init c) ops = Ok (st, evs) ->
+  fire st script = Ok (st', ev) ->
+  rlog ev = map (fun k => (seqof (heap st) (snd k), fst k, clk st)) (due st) /\
+  StronglySorted (fun x y => klt x y = true) (due st) /\
+  (forall d a, In (d, a) (due st) <-> In (d, a) (timers st) /\ d <= clk st) /\
+  (forall d a r, timers st' = (d, a) :: r ->
+     armed st' = Some (Z.max d (clk st' + TimerQueue_floor_val)) /\ arm_at st' = clk st').
+Proof. exact fire_runs_due. Qed.
+Print Assumptions C06_expiry_runs_exactly_due.
+
+(* None lost: a registered timer whose deadline has passed runs in the next expiry. *)
+Theorem C06_none_lost : forall c ops st evs script st' ev, run (init c) ops = Ok (st, evs) ->
+  fire st script = Ok (st', ev) ->
+  forall d a, In (d, a) (timers st) -> d <= clk st ->
+  exists o t, hget a (heap st) = Some o /\ In (ERun (o_seq o) d (clk st) t) ev.
+Proof. exact none_lost. Qed.
+Print Assumptions C06_none_lost.
+
+(* Progress: when the timerfd has become readable (armed instant x <= clock) and a timer is pending,
+   the expiry either runs the earliest timer, or -- the arming was stale (x < earliest deadline: the
+   timer it was armed for has been cancelled) -- runs nothing, leaves the sets alone and re-arms for
+   exactly max(earliest, now + floor) >= earliest, so that the next readable expiry does run it (first
+   case).  With C06_armed_for_earliest (always armed while a timer is pending) and the timerfd
+   contract this is "every registered timer does run while the loop keeps running". *)
+Theorem C06_progress : forall c ops st evs script st' ev d a r x, run (init c) ops = Ok (st, evs) ->
+  timers st = (d, a) :: r -> armed st = Some x -> x <= clk st -> fire st script = Ok (st', ev) ->
+  (forall d' a' r', timers st' = (d', a') :: r' ->
+     armed st' = Some (Z.max d' (clk st' + TimerQueue_floor_val)) /\ arm_at st' = clk st') /\
+  ((d <= clk st /\ exists o t, hget a (heap st) = Some o /\ In (ERun (o_seq o) d (clk st) t) ev) \/
+   (clk st < d /\ x < d /\ rlog ev = [] /\ timers st' = timers st /\ clk st' = clk st /\
+    armed st' = Some (Z.max d (clk st + TimerQueue_floor_val)))).
+Proof. exact progress. Qed.
+Print Assumptions C06_progress.
+
+(* Deadline order.  A is registered under deadline dA = o_exp oA at a reachable state.  In EVERY
+   continuation, every callback filed under a later deadline is preceded by A's callback filed under
+   dA -- or else A never runs in the continuation and its Timer object is dead at the end (it was
+   cancelled before it could run).  Within one expiry the order is (deadline, address)
+   (C06_expiry_runs_exactly_due); across expiries an expiry takes EVERY timer that is due. *)
+Theorem C06_deadline_order : forall c ops st evs a oA ops2 st2 evs2,
+  run (init c) ops = Ok (st, evs) -> hget a (heap st) = Some oA -> In (o_exp oA, a) (timers st) ->
+  run st ops2 = Ok (st2, evs2) ->
+  (forall l1 s dl n t l2, evs2 = l1 ++ ERun s dl n t :: l2 -> o_exp oA < dl ->
+      exists nA tA, In (ERun (o_seq oA) (o_exp oA) nA tA) l1) \/
+  ((forall dl n t, ~ In (ERun (o_seq oA) dl n t) evs2) /\ gone st2 (o_seq oA)).
+Proof. exact deadline_order. Qed.
+Print Assumptions C06_deadline_order.
+
+(* The guards of the CURRENT sources (regenerated from the clang AST on every run) are the tests the
+   model performs: insert's `earliestChanged`, reset's `repeat() && not in cancelingTimers_`, the
+   Timestamp::valid() gate of the re-arm (a default Timestamp is invalid), and the guarded branches do
+   what the model does (structure facts). *)
+Theorem C06_generated_guards :
+  (forall st addr, insert st addr = insert_src st addr) /\
+  (forall ex st now, reset_loop st ex now = reset_loop_src st ex now) /\
+  (forall x, (0 <? x) = Timestamp_valid x) /\ Timestamp_valid Timestamp_default_us = false /\
+  TimerQueue_floor_cmp = TimerQueue_floor_val /\
+  (TimerQueue_insert_returns_guard = true /\ TimerQueue_insert_files_both = true /\
+   TimerQueue_addTimerInLoop_rearms_iff_earliest = true /\
+   TimerQueue_reset_then_restart_insert = true /\ TimerQueue_reset_else_delete = true /\
+   TimerQueue_reset_rearms_head_iff_valid = true /\
+   TimerQueue_cancelInLoop_found_erases_both_deletes = true /\ TimerQueue_cancelInLoop_marks_canceling = true).
+Proof. exact (conj insert_is_source (conj reset_loop_is_source (conj valid_is_source (conj default_timestamp_invalid (conj gen_floor_same structure_facts))))). Qed.
+Print Assumptions C06_generated_guards.
+
 (* non-vacuity: a program with equal deadlines, a repeater, a nested add with a past deadline, a
    sibling cancel and a foreign add runs without rejection and produces runs *)
 Definition ex_ops : list op :=
@@ -65,3 +178,58 @@ Example C06_nonvacuous :
   | _ => False
   end.
 Proof. vm_compute. auto. Qed.
+
+(* non-vacuity of the history theorems: a repeater (seq 1, first deadline 1100, interval 200) runs three
+   times under deadlines 1100, 1700, 2300 (>= 1100 + k*200) at 1500, 2100, 2350, a one-shot (seq 2) runs once; the
+   hypotheses of C06_repeat_spacing / C06_oneshot_at_most_once are inhabited by this trace *)
+Definition hist_ops : list op :=
+  [Cb (CAdd 1100 200 30); Cb (CAdd 1600 0 10); Cb (CTick 500); Fire []; Cb (CTick 600); Fire [];
+   Cb (CTick 250); Fire []].
+Example C06_history_nonvacuous :
+  match run (init 1000) hist_ops with
+  | Ok (st, evs) =>
+      In (EAdd 1 30 1100 200) evs /\ In (EAdd 2 10 1600 0) evs /\
+      rlog evs = [(1, 1100, 1500); (2, 1600, 2100); (1, 1700, 2100); (1, 2300, 2350)] /\
+      (exists l1 l2, evs = l1 ++ ERun 1 2300 2350 2350 :: l2 /\ length (runs_of 1 l1) = 2%nat)
+  | _ => False
+  end.
+Proof.
+  vm_compute. repeat split; auto 20.
+  exists [EArm 1000 100; EAdd 1 30 1100 200; EAdd 2 10 1600 0; ERun 1 1100 1500 1500; EArm 1500 100;
+          ERun 2 1600 2100 2100; ERun 1 1700 2100 2100; EArm 2100 200], [EArm 2350 200]. split; reflexivity.
+Qed.
+
+(* non-vacuity of C06_progress, second branch: the earliest timer (deadline 1500) is cancelled, the
+   stale arming (1500) becomes readable at 1600 < 9000: the expiry runs nothing and re-arms for
+   exactly max(9000, 1600 + 100); first branch: at 9000 the expiry runs the timer *)
+Definition stale_ops : list op := [Cb (CAdd 1500 0 10); Cb (CAdd 9000 0 20); Cb (CCancel 10 1); Cb (CTick 600)].
+Example C06_progress_nonvacuous :
+  match run (init 1000) stale_ops with
+  | Ok (st, _) =>
+      timers st = [(9000, 20)] /\ armed st = Some 1500 /\ clk st = 1600 /\
+      match fire st [] with
+      | Ok (st', ev) => rlog ev = [] /\ armed st' = Some 9000 /\
+          match run st' [Cb (CTick 7400); Fire []] with
+          | Ok (_, ev2) => rlog ev2 = [(2, 9000, 9000)]
+          | _ => False end
+      | _ => False end
+  | _ => False
+  end.
+Proof. vm_compute. auto 10. Qed.
+
+(* non-vacuity of C06_deadline_order: A (deadline 1500) and B (deadline 1700) registered; in the
+   continuation B's run (filed under 1700 > 1500) is preceded by A's (left disjunct, with an actual
+   split); if A is cancelled first, A never runs and is dead (right disjunct) *)
+Example C06_deadline_order_nonvacuous :
+  match run (init 1000) [Cb (CAdd 1700 0 20); Cb (CAdd 1500 0 10)] with
+  | Ok (st, _) =>
+      hget 10 (heap st) = Some (mkT 2 1500 0) /\ In (1500, 10) (timers st) /\
+      match run st [Cb (CTick 800); Fire []] with
+      | Ok (_, evs2) => exists l2, evs2 = [ERun 2 1500 1800 1800] ++ ERun 1 1700 1800 1800 :: l2
+      | _ => False end /\
+      match run st [Cb (CCancel 10 2); Cb (CTick 800); Fire []] with
+      | Ok (st2, evs2) => rlog evs2 = [(1, 1700, 1800)] /\ hget 10 (heap st2) = None
+      | _ => False end
+  | _ => False
+  end.
+Proof. vm_compute. repeat split; auto. eexists; reflexivity. Qed.
